@@ -11,6 +11,7 @@
 import Model.Convert
 import Model.LALR
 import Model.Expr
+import Model.Regex
 
 namespace Measured
 
@@ -118,115 +119,33 @@ def unitFormatRatio (i : UId) : CM α String := do
     let b ← unitStr d
     pure (a ++ "/" ++ b)
 
-/-! ### the terminals of measured.lark, as matchers
+/-! ### the lexer's terminals
 
-Each matcher is written against the regular expression recorded next to it; the per-run
-obligation `terminals_eq` (Obligations/C16.lean) checks that the pattern strings in the
-shipped `_parser.py` and in a parser freshly built from `measured.lark` are exactly these. -/
-
-def countWhile (p : Char → Bool) : List Char → Nat
-  | [] => 0
-  | c :: cs => if p c then countWhile p cs + 1 else 0
+The terminal patterns are data of the generated parser (regenerated per run into
+`Generated/Grammar.lean`); `Model/Regex.lean` parses and interprets them. -/
 
 def isSign (c : Char) : Bool := c == '+' || c == '-'
 def signLen : List Char → Nat
   | c :: _ => if isSign c then 1 else 0
   | [] => 0
 
-def patSignedInt : String := "(?:(?:\\+|\\-))?(?:[0-9])+"
-/-- `(?:(?:\+|\-))?(?:[0-9])+` -/
-def matchSignedInt (cs : List Char) : Option Nat :=
-  let s := signLen cs
-  let d := countWhile isDigit (cs.drop s)
-  if d > 0 then some (s + d) else none
-
-/-- `(?:e|E)(?:(?:\+|\-))?(?:[0-9])+` — length, or 0 when it does not match. -/
-def expPartLen : List Char → Nat
-  | c :: rest =>
-    if c == 'e' || c == 'E' then
-      let s := signLen rest
-      let d := countWhile isDigit (rest.drop s)
-      if d > 0 then 1 + s + d else 0
-    else 0
-  | [] => 0
-
-def patSignedFloat : String :=
-  "(?:(?:\\+|\\-))?(?:(?:[0-9])+(?:e|E)(?:(?:\\+|\\-))?(?:[0-9])+|(?:(?:[0-9])+\\.(?:(?:[0-9])+)?|\\.(?:[0-9])+)(?:(?:e|E)(?:(?:\\+|\\-))?(?:[0-9])+)?)"
-def matchSignedFloat (cs : List Char) : Option Nat :=
-  let s := signLen cs
-  let body := cs.drop s
-  let d := countWhile isDigit body
-  let after := body.drop d
-  -- alternative 1: digits+ exponent
-  let alt1 : Option Nat :=
-    if d > 0 then (let e := expPartLen after; if e > 0 then some (d + e) else none) else none
-  match alt1 with
-  | some n => some (s + n)
-  | none =>
-    -- alternative 2: (digits+ "." digits* | "." digits+) exponent?
-    match after with
-    | '.' :: frac =>
-      let f := countWhile isDigit frac
-      if d > 0 || f > 0 then
-        let e := expPartLen (frac.drop f)
-        some (s + d + 1 + f + e)
-      else none
-    | _ => none
-
-def patWS : String := "(?:[ \t\x0c\r\n])+"
-def isWS (c : Char) : Bool := c == ' ' || c == '\t' || c == '\x0c' || c == '\r' || c == '\n'
-def matchWS (cs : List Char) : Option Nat :=
-  let n := countWhile isWS cs; if n > 0 then some n else none
-
-def patMultiply : String := "(?:⋅|\\*)"
-def matchMultiply : List Char → Option Nat
-  | c :: _ => if c == '⋅' || c == '*' then some 1 else none
-  | [] => none
-
-def patDivide : String := "/"
-def matchDivide : List Char → Option Nat
-  | c :: _ => if c == '/' then some 1 else none
-  | [] => none
-
-def patCarat : String := "\\^(?:(?:\\+|\\-))?(?:[0-9])+"
-def matchCarat : List Char → Option Nat
-  | '^' :: rest => (matchSignedInt rest).map (· + 1)
-  | _ => none
-
-def patSuperscript : String := "(?:⁻)?(?:(?:⁰|¹|²|³|⁴|⁵|⁶|⁷|⁸|⁹))+"
-def isSuperDigit (c : Char) : Bool :=
-  c == '⁰' || c == '¹' || c == '²' || c == '³' || c == '⁴' || c == '⁵' || c == '⁶' || c == '⁷' || c == '⁸' || c == '⁹'
-def matchSuperscript (cs : List Char) : Option Nat :=
-  let s := match cs with | '⁻' :: _ => 1 | _ => 0
-  let d := countWhile isSuperDigit (cs.drop s)
-  if d > 0 then some (s + d) else none
-
-def patSymbol : String := "(?:(?:(?:\\.|°|\\-|\\(|\\))|(?:[A-Z]|Å)|[a-z]|[ₐ-ₜ]|[Α-ω]|1|☉))+"
-def isSymbolChar (c : Char) : Bool :=
-  c == '.' || c == '°' || c == '-' || c == '(' || c == ')' ||
-  ('A' ≤ c && c ≤ 'Z') || c == 'Å' || ('a' ≤ c && c ≤ 'z') ||
-  ('ₐ' ≤ c && c ≤ 'ₜ') || ('Α' ≤ c && c ≤ 'ω') || c == '1' || c == '☉'
-def matchSymbol (cs : List Char) : Option Nat :=
-  let n := countWhile isSymbolChar cs; if n > 0 then some n else none
-
-/-- name ↦ (pattern text the matcher implements, matcher) -/
-def knownTerminals : List (String × String × Matcher) :=
-  [ ("SIGNED_INT", patSignedInt, matchSignedInt),
-    ("SIGNED_FLOAT", patSignedFloat, matchSignedFloat),
-    ("WS", patWS, matchWS),
-    ("_MULTIPLY", patMultiply, matchMultiply),
-    ("_DIVIDE", patDivide, matchDivide),
-    ("CARAT_EXPONENT", patCarat, matchCarat),
-    ("SUPERSCRIPT_EXPONENT", patSuperscript, matchSuperscript),
-    ("SYMBOL", patSymbol, matchSymbol) ]
-
 def noMatch : Matcher := fun _ => none
 
-/-- Build the lexer configuration from the terminal scan order extracted from the parser. -/
-def mkLexConf (order : List String) (ignore : List String) : LexConf :=
+/-- The matcher of one terminal: `PatternRE` is parsed as a regular expression, `PatternStr` is a
+    literal.  An unparsable pattern never matches (and fails the `patterns_parse` obligation). -/
+def matcherOf (isRegex : Bool) (text : String) : Matcher :=
+  if isRegex then
+    match Re.parse text with
+    | some re => re.matchLen
+    | none => noMatch
+  else (Re.ofLiteral text).matchLen
+
+/-- Build the lexer configuration from the terminal scan order and the terminal patterns extracted
+    from the parser. -/
+def mkLexConf (order : List String) (ignore : List String) (patterns : List (String × Bool × String)) : LexConf :=
   { terminals := order.map (fun n =>
-      match knownTerminals.find? (fun k => k.1 == n) with
-      | some k => (n, k.2.2)
+      match patterns.find? (fun k => k.1 == n) with
+      | some k => (n, matcherOf k.2.1 k.2.2)
       | none => (n, noMatch)),
     ignore := ignore }
 
@@ -240,6 +159,10 @@ structure Grammar where
   endQty     : Nat
   lexOrder   : List String
   ignore     : List String
+  /-- terminal name, is it a `PatternRE` (else a literal `PatternStr`), pattern text -/
+  patterns   : List (String × Bool × String)
+
+def Grammar.lexConf (g : Grammar) : LexConf := mkLexConf g.lexOrder g.ignore g.patterns
 
 /-! ### QuantityTransformer -/
 
@@ -377,7 +300,7 @@ def transformerAct (s : St) (r : GRule) (args : List (Val α)) : St × Except Ex
   else (s, .error .unmodelled)
 
 def parseStart (g : Grammar) (start stop : Nat) (t : String) : CM α (Val α) :=
-  liftStE (fun s => parseWith g.table g.rules start stop (mkLexConf g.lexOrder g.ignore) transformerAct Val.tok s t)
+  liftStE (fun s => parseWith g.table g.rules start stop (g.lexConf) transformerAct Val.tok s t)
 
 /-! ### the symbol table seen through `resolve_symbol` -/
 
@@ -410,7 +333,7 @@ def parseQuantity (g : Grammar) (t : String) : CM α (Qty α) := do
 
 /-- The parse tree lark's default builder produces (used for C16). -/
 def parseTree (g : Grammar) (start stop : Nat) (t : String) : Except Exc Tree :=
-  (parseWith g.table g.rules start stop (mkLexConf g.lexOrder g.ignore) treeAction Tree.tok () t).2
+  (parseWith g.table g.rules start stop (g.lexConf) treeAction Tree.tok () t).2
 
 end
 
